@@ -152,5 +152,247 @@ theorem initialWork_inv (d : DFA Nat) : Inv d (initialWork d).reverse (List.repl
     simp only [initialWork, List.mem_map, List.mem_filter, List.mem_range]
     exact ⟨i, ⟨hi, hini⟩, rfl⟩
 
+/-! ## Termination -/
+
+/-- rank of a visited entry: how many more times the state can be expanded -/
+def rank : Option Bool → Nat
+  | none => 2
+  | some false => 1
+  | some true => 0
+
+/-- potential: work-list length + Σ_s rank(vis[s]) · outdegree(s) -/
+def rankSum : List (DState Nat) → List (Option Bool) → Nat
+  | s :: ss, v :: vs => rank v * (DFA.succs s).length + rankSum ss vs
+  | _, _ => 0
+
+/-- `List.set` at a valid index changes `rankSum` by the rank difference times the out-degree. -/
+theorem rankSum_set : ∀ (d : List (DState Nat)) (vis : List (Option Bool)) (s : Nat) (x : Option Bool),
+    vis.length = d.length → s < d.length →
+    rankSum d (vis.set s x) + rank (vis.getD s none) * (DFA.succs (DFA.st d s)).length
+      = rankSum d vis + rank x * (DFA.succs (DFA.st d s)).length := by
+  intro d
+  induction d with
+  | nil => intro vis s x _ hs; simp at hs
+  | cons a d ih =>
+    intro vis s x hl hs
+    cases vis with
+    | nil => simp at hl
+    | cons v vis =>
+      cases s with
+      | zero =>
+        simp only [List.set_cons_zero, rankSum, DFA.st, List.getD_cons_zero]
+        omega
+      | succ s =>
+        have h := ih vis s x (by simpa using hl) (by simpa using hs)
+        simp only [List.set_cons_succ, rankSum, DFA.st, List.getD_cons_succ] at h ⊢
+        omega
+
+theorem rankSum_replicate (d : DFA Nat) : ∀ a : Nat,
+    2 * d.foldl (fun acc s => acc + (DFA.succs s).length) a
+      = 2 * a + rankSum d (List.replicate d.length none) := by
+  induction d with
+  | nil => intro a; simp [rankSum]
+  | cons s d ih =>
+    intro a
+    simp only [List.foldl_cons, List.length_cons, List.replicate_succ, rankSum, rank]
+    rw [ih]
+    omega
+
+theorem rankSum_initial (d : DFA Nat) : rankSum d (List.replicate d.length none) = 2 * edgeCount d := by
+  have h := rankSum_replicate d 0
+  simp only [edgeCount]
+  omega
+
+theorem initialWork_length (d : DFA Nat) : (initialWork d).reverse.length ≤ d.length := by
+  simp only [initialWork, List.length_reverse, List.length_map]
+  have h := List.length_filter_le (fun i => (d.st i).initial) (List.range d.length)
+  simpa using h
+
+/-- Generalised termination: the potential bounds the fuel needed. -/
+theorem loop_terminates (d : DFA Nat) (hT : TargetsOK d) :
+    ∀ (fuel : Nat) (wl : List (Nat × Bool)) (vis : List (Option Bool)),
+      vis.length = d.length → (∀ p ∈ wl, p.1 < d.length) → wl.length + rankSum d vis < fuel →
+      ∃ vis', backtrackLoop d fuel wl vis = some vis' := by
+  intro fuel
+  induction fuel with
+  | zero => intro wl vis _ _ h; omega
+  | succ fuel ih =>
+    intro wl vis hl hr hf
+    cases wl with
+    | nil => exact ⟨vis, by simp [backtrackLoop]⟩
+    | cons p wl =>
+      obtain ⟨s, bt⟩ := p
+      have hs : s < d.length := hr (s, bt) (List.mem_cons_self ..)
+      have hr' : ∀ p ∈ wl, p.1 < d.length := fun p hp => hr p (List.mem_cons_of_mem _ hp)
+      have hpush : ∀ (b : Bool), ∀ p ∈ ((DFA.succs (d.st s)).map fun t => (t, b)).reverse ++ wl,
+          p.1 < d.length := by
+        intro b p hp
+        rcases List.mem_append.mp hp with h | h
+        · have h' := List.mem_reverse.mp h
+          obtain ⟨t, ht, rfl⟩ := List.mem_map.mp h'
+          exact hT s hs t ht
+        · exact hr' p h
+      simp only [List.length_cons] at hf
+      simp only [backtrackLoop]
+      cases hv : vis.getD s none with
+      | none =>
+        simp only []
+        apply ih
+        · simp [hl]
+        · exact hpush _
+        · have h := rankSum_set d vis s (some bt) hl hs
+          rw [hv] at h
+          simp only [List.length_append, List.length_reverse, List.length_map]
+          cases bt <;> simp only [rank] at h <;> omega
+      | some v =>
+        simp only []
+        by_cases hskip : (v || !bt) = true
+        · simp only [hskip, if_true]
+          exact ih _ _ hl hr' (by omega)
+        · simp only [hskip]
+          have hbv : bt = true ∧ v = false := by
+            cases v <;> cases bt <;> simp_all
+          obtain ⟨hbt, hvf⟩ := hbv
+          subst hbt; subst hvf
+          apply ih
+          · simp [hl]
+          · exact hpush _
+          · have h := rankSum_set d vis s (some true) hl hs
+            rw [hv] at h
+            simp only [List.length_append, List.length_reverse, List.length_map]
+            simp only [rank] at h
+            omega
+
+/-- Termination: the fuel `backtrackFuel d` always suffices (the loop never returns `none`). -/
+theorem backtrack_terminates (d : DFA Nat) (hT : TargetsOK d) :
+    ∃ vis, backtrackLoop d (backtrackFuel d) (initialWork d).reverse (List.replicate d.length none) = some vis := by
+  apply loop_terminates d hT
+  · simp
+  · exact (initialWork_inv d).wlRange
+  · have h1 := initialWork_length d
+    have h2 := rankSum_initial d
+    simp only [backtrackFuel]
+    omega
+
+/-! ## Closure of the result -/
+
+theorem st_zipWith (d : DFA Nat) (vis : List (Option Bool)) (hl : vis.length = d.length) (s : Nat) :
+    DFA.st (d.zipWith (fun st v => { st with backtrack := v.getD false }) vis) s
+      = { d.st s with backtrack := (vis.getD s none).getD false } := by
+  by_cases hs : s < d.length
+  · have hs' : s < vis.length := by omega
+    simp [DFA.st, List.getD, List.getElem?_zipWith, hs, hs']
+  · have hs' : ¬ s < vis.length := by omega
+    simp [DFA.st, List.getD, List.getElem?_zipWith, hs, hs', DState.empty]
+
+/-- What `updateBacktracks d = some d'` unfolds to. -/
+theorem updateBacktracks_some (d d' : DFA Nat) (hT : TargetsOK d) (h : updateBacktracks d = some d') :
+    ∃ vis, Inv d [] vis ∧ vis.all Option.isSome = true ∧
+      d' = d.zipWith (fun st v => { st with backtrack := v.getD false }) vis := by
+  simp only [updateBacktracks] at h
+  cases hloop : backtrackLoop d (backtrackFuel d) (initialWork d).reverse (List.replicate d.length none) with
+  | none => simp only [hloop] at h; cases h
+  | some vis =>
+    simp only [hloop] at h
+    by_cases hall : vis.all Option.isSome = true
+    · simp only [hall, if_true] at h
+      exact ⟨vis, loop_inv d hT _ _ _ _ (initialWork_inv d) hloop, hall, (Option.some.inj h).symm⟩
+    · simp only [hall] at h
+      cases h
+
+theorem covered_nil (vis : List (Option Bool)) (t : Nat) (need : Bool) (h : Covered [] vis t need) :
+    ∃ b, vis.getD t none = some b ∧ (need = true → b = true) := by
+  rcases h with h | ⟨b, hb, _⟩
+  · exact h
+  · cases hb
+
+theorem all_isSome_getD (vis : List (Option Bool)) (hall : vis.all Option.isSome = true) (s : Nat)
+    (hs : s < vis.length) : ∃ b, vis.getD s none = some b := by
+  have h := List.all_eq_true.mp hall vis[s] (List.getElem_mem hs)
+  cases hv : vis[s] with
+  | none => rw [hv] at h; cases h
+  | some b => exact ⟨b, by simp [List.getD, hs, hv]⟩
+
+/-- Local closure of the computed flags: the form the run-time theorem consumes. -/
+theorem backtrack_closed (d d' : DFA Nat) (hT : TargetsOK d) (h : updateBacktracks d = some d') :
+    d'.length = d.length ∧
+    (∀ s, DFA.succs (d'.st s) = DFA.succs (d.st s) ∧ (d'.st s).accepting = (d.st s).accepting ∧ (d'.st s).initial = (d.st s).initial) ∧
+    (∀ s, s < d.length → ∀ t ∈ DFA.succs (d.st s),
+        ((d'.st s).backtrack || accOf d s) = true → (d'.st t).backtrack = true) := by
+  obtain ⟨vis, hinv, hall, rfl⟩ := updateBacktracks_some d d' hT h
+  have hl := hinv.len
+  refine ⟨by simp [hl], ?_, ?_⟩
+  · intro s
+    rw [st_zipWith d vis hl s]
+    exact ⟨rfl, rfl, rfl⟩
+  · intro s hs t ht hb
+    rw [st_zipWith d vis hl s] at hb
+    rw [st_zipWith d vis hl t]
+    obtain ⟨b, hvb⟩ := all_isSome_getD vis hall s (by omega)
+    obtain ⟨b', hvb', himp⟩ := covered_nil vis t _ (hinv.closed s b hvb t ht)
+    simp only [hvb, Option.getD_some] at hb
+    simp only [hvb', Option.getD_some]
+    exact himp hb
+
+/-! ## Soundness along paths, totality -/
+
+/-- a path in the DFA graph -/
+inductive Path (d : DFA Nat) : Nat → Nat → Prop
+  | refl (s : Nat) : Path d s s
+  | step {s t u : Nat} : Path d s t → u ∈ DFA.succs (d.st t) → Path d s u
+
+theorem path_lt (d : DFA Nat) (hT : TargetsOK d) (s t : Nat) (p : Path d s t) (hs : s < d.length) :
+    t < d.length := by
+  induction p with
+  | refl => exact hs
+  | step _ hu ih => exact hT _ ih _ hu
+
+-- `hini` is not needed for the proof (the flag is forced by closure alone); it is kept because it is
+-- part of the stated property.
+set_option linter.unusedVariables false in
+/-- Soundness along paths (the English of the property): a state reached from an initial state on a
+path that passes an accepting state strictly before it has its flag set. -/
+theorem backtrack_sound (d d' : DFA Nat) (hT : TargetsOK d) (h : updateBacktracks d = some d')
+    (i a t u : Nat) (hi : i < d.length) (hini : (d.st i).initial = true)
+    (p1 : Path d i a) (hacc : accOf d a = true) (hstep : t ∈ DFA.succs (d.st a)) (p2 : Path d t u) :
+    (d'.st u).backtrack = true := by
+  obtain ⟨_, _, hcl⟩ := backtrack_closed d d' hT h
+  have ha : a < d.length := path_lt d hT i a p1 hi
+  have ht : t < d.length := hT a ha t hstep
+  have hbt : (d'.st t).backtrack = true := hcl a ha t hstep (by simp [hacc])
+  induction p2 with
+  | refl => exact hbt
+  | step p hu ih =>
+    exact hcl _ (path_lt d hT _ _ p ht) _ hu (by simp [ih])
+
+/-- every state on a path from a visited state is visited at the end of the loop -/
+theorem visited_path (d : DFA Nat) (vis : List (Option Bool)) (hinv : Inv d [] vis) (s t : Nat)
+    (p : Path d s t) (hs : ∃ b, vis.getD s none = some b) : ∃ b, vis.getD t none = some b := by
+  induction p with
+  | refl => exact hs
+  | step _ hu ih =>
+    obtain ⟨b, hb⟩ := ih
+    obtain ⟨b', hb', _⟩ := covered_nil vis _ _ (hinv.closed _ b hb _ hu)
+    exact ⟨b', hb'⟩
+
+/-- The `assert_eq!(visited.len(), states.len())` cannot fire when every state is reachable from an
+initial state. -/
+theorem backtrack_total (d : DFA Nat) (hT : TargetsOK d)
+    (hreach : ∀ s, s < d.length → ∃ i, i < d.length ∧ (d.st i).initial = true ∧ Path d i s) :
+    ∃ d', updateBacktracks d = some d' := by
+  obtain ⟨vis, hloop⟩ := backtrack_terminates d hT
+  have hinv := loop_inv d hT _ _ _ _ (initialWork_inv d) hloop
+  have hall : vis.all Option.isSome = true := by
+    apply List.all_eq_true.mpr
+    intro x hx
+    obtain ⟨n, hn, rfl⟩ := List.getElem_of_mem hx
+    obtain ⟨i, hi, hini, p⟩ := hreach n (by rw [← hinv.len]; exact hn)
+    obtain ⟨b0, hb0, _⟩ := covered_nil vis i _ (hinv.initial i hi hini)
+    obtain ⟨b, hb⟩ := visited_path d vis hinv i n p ⟨b0, hb0⟩
+    simp [List.getD, hn] at hb
+    simp [hb]
+  refine ⟨d.zipWith (fun st v => { st with backtrack := v.getD false }) vis, ?_⟩
+  simp only [updateBacktracks, hloop, hall, if_true]
+
 end Backtrack
 end Lexgen
